@@ -411,9 +411,10 @@ def check_config_copy(ck, rule, only=None):
             for tg in n.ast.targets:
                 if isinstance(tg, ast.Attribute) and dump(tg.value) == "self":
                     t = prov.origin(ginit, n, n.ast.value)
-                    ps = [x[1] for x in prov.subterms(t) if x[0] == "param" and x[1] != "self"]
+                    ps = sorted(set(x[1] for x in prov.subterms(t) if x[0] == "param" and x[1] != "self"))
                     if ps:
-                        field_param[tg.attr] = ps[0]
+                        # (the parameter named like the field when several contribute - a fall-back chain `x if y is None else y`)
+                        field_param[tg.attr] = tg.attr if tg.attr in ps else ps[0]
     ctor = [(n, c) for (n, c) in q.call_sites(prog, fcopy, lambda r, c: r == "class:config.Config")]
     if len(ctor) != 1:
         raise AnalysisError("anchor vanished: Config(...) call in Config.copy (found %d)" % len(ctor))
@@ -521,6 +522,10 @@ def import_rules(ck, module, mapping):
     tmp, err = cache[key]
     if err is not None and not any(o["rule"] in mapping for o in tmp.obligations):
         raise err
+    derr = (getattr(tmp, "deferred_errors", None) or [None])[0] or err
+    if derr is not None and any(not any(o["rule"] == r_ for o in tmp.obligations) for r_ in mapping) and \
+            not any(o["rule"] in mapping and not o["ok"] for o in tmp.obligations):
+        raise derr        # (one of the adopted rules could not be decided by its own module: the adopting property cannot claim it either)
     for o in tmp.obligations:
         if o["rule"] in mapping:
             if o["ok"]:
@@ -1038,6 +1043,20 @@ def _use_kind(node, parents):
     return "used in `%s`" % (dump(par)[:50] if par is not None else "?")
 
 
+def _text_local(fi, name):
+    if name in fi.params:
+        return False
+    binds = [st for st in ast.walk(fi.node) if isinstance(st, ast.Assign) and any(isinstance(t, ast.Name) and t.id == name for t in st.targets)]
+    others = [x for x in ast.walk(fi.node) if isinstance(x, (ast.For, ast.With, ast.ExceptHandler, ast.AugAssign, ast.comprehension)) and
+              any(isinstance(y, ast.Name) and y.id == name and isinstance(y.ctx, ast.Store) for y in ast.walk(x) if not isinstance(x, ast.ExceptHandler))]
+    if any(isinstance(x, ast.ExceptHandler) and x.name == name for x in ast.walk(fi.node)):
+        return False
+    if not binds or any(not isinstance(o, ast.AugAssign) and not any(o is b or any(b is z for z in ast.walk(o)) for b in binds) for o in others):
+        pass
+    return bool(binds) and all(_stringish(b.value) for b in binds) and \
+        not any(isinstance(x, ast.For) and any(isinstance(y, ast.Name) and y.id == name for y in ast.walk(x.target)) for x in ast.walk(fi.node))
+
+
 def check_inert_handlers(ck, rule, scopes=("worker", "notify")):
     """The handlers that contain a failing task (ThreadPool.__run) and a failing callback (FutureResult.__notify) are the
     last line of defence: whatever they do with the objects that came from user code (the exception, the callable, its
@@ -1085,9 +1104,22 @@ def check_inert_handlers(ck, rule, scopes=("worker", "notify")):
                 ck.require(not bare, rule, "%s: handler `except %s` around %s does not re-raise" % (q.fn(fi), dump(h.type) if h.type else "", what),
                            "no bare raise", "the handler that contains a failure of %s raises it again" % what,
                            fi.loc(bare[0] if bare else h))
+                # (what happens inside a nested try with a catch-all handler that does not re-raise is contained by that handler)
+                shielded = set()
+                for st in h.body:
+                    for t2 in ast.walk(st):
+                        if isinstance(t2, ast.Try) and any((h2.type is None or dump(h2.type) in ("Exception", "BaseException")) and
+                                                           not any(isinstance(r2, ast.Raise) for b2 in h2.body for r2 in ast.walk(b2))
+                                                           for h2 in t2.handlers):
+                            for b2 in t2.body:
+                                shielded.update(id(y) for y in ast.walk(b2))
                 for st in h.body:
                     for x in ast.walk(st):
+                        if id(x) in shielded:
+                            continue
                         if isinstance(x, ast.Name) and isinstance(x.ctx, ast.Load) and x.id != "self" and x.id in local_names:
+                            if _text_local(fi, x.id):
+                                continue        # (a local bound only to str(...) results / string constants: a plain string, not a user object)
                             kind = _use_kind(x, parents)
                             key = (x.id, kind.split(" (")[0].split(" `")[0] if kind else None)
                             seen[key] = seen.get(key, 0) + 1
@@ -1175,6 +1207,10 @@ def check_client_state(ck, rule, classes=None):
                         hits.append((f.value.attr, "call .%s()" % f.attr))
                 for (attr, how) in hits:
                     n3 += 1
+                    if how == "store" and isinstance(n.ast, ast.AugAssign) and isinstance(n.ast.value, ast.Constant) and \
+                            isinstance(n.ast.value.value, (int, float)) and not isinstance(n.ast.value.value, bool):
+                        ck.ok(rule, "%s: store self.%s" % (q.fn(fi), attr), "a counter stepped by a constant: no data of a call", q.loc(fi, n))
+                        continue
                     if how == "store" and isinstance(n.ast, ast.Assign) and _constant_display(n.ast.value):
                         ck.ok(rule, "%s: store self.%s" % (q.fn(fi), attr), "a constant (reset to an initial value): no data of a call", q.loc(fi, n))
                         continue
@@ -1425,6 +1461,13 @@ def json_safe_expr(prog, fi, node, e, depth=0):
     of them, locals bound only to such values (also through `a, b = helper(...)`) and completed only with such values, and package
     functions all of whose return values are such"""
     return _jkind(prog, fi, node, e, depth) is not None
+
+
+def is_new_function(fi):
+    """the function is not one the rules were confirmed on (vlib/known_functions.json): a new helper method that was not expanded"""
+    from vlib.inline import known_functions
+    qual = fi.fq.split(".", 1)[1] if "." in fi.fq else fi.fq
+    return qual not in known_functions().get(fi.module, set())
 
 
 def carried_by_exception(site):
